@@ -191,10 +191,55 @@ def run(tier, replay_file=None):
             if m is not None:
                 chk.mismatches.append(f'HandlerError::Handler response not stamped with exactly the request id: {out} (no public-API replay)')
 
+    stamping(chk, ex)
     status_types(chk, ex)
     kani_status_types(chk)
     witnesses(chk)
     return chk.finish('one obligation per (constructor, error-code presence, attached-header plan, execution path, clause)')
+
+
+def stamping(chk, ex):
+    """server.rs::http_request_handle: every successful response leaves with exactly one x-request-id equal to the id the handler was
+    given, also when the handler's own response already carried such a header; handler errors are passed on unchanged"""
+    from props import glue as G, routerlib as RL
+    from props.routerlib import Endpoint
+    saved_models = ex.models
+    ex.models = G.load_models() + ex.models
+    try:
+        g = G.Glue(chk, ex)
+        eps = [Endpoint(0, 'GET', '/a/{x}', 'All'), Endpoint(1, 'PUT', '/a/{x}', 'All')]
+        upstream = sstr('upstream_request_id')
+        results = {
+            'plain': lambda ex: ex.ok(Response(200, HMap([('content-type', HV('application/json'))]), Opaque('body', 'out'))),
+            'relayed-id': lambda ex: ex.ok(Response(200, HMap([('x-request-id', HV(upstream)), ('content-type', HV('text/plain'))]), Opaque('body', 'out'))),
+            'two-relayed-ids': lambda ex: ex.ok(Response(204, HMap([('x-request-id', HV(upstream)), ('x-request-id', HV(sstr('second_upstream_id')))]), Opaque('body', None))),
+            'handler-error': lambda ex: ex.err(ex.mk_enum('HandlerError', 'Dropshot', [Opaque('the-http-error')])),
+        }
+        for rname, rfn in results.items():
+            for mode in ('CancelOnDisconnect', 'Detached'):
+                def check(chk, ex, pc, r, ctx, rname=rname):
+                    if not r['calls']: return
+                    out = r['out']
+                    if rname == 'handler-error':
+                        good = out.discr == 1 and ex.variant_name(ex.payload(out)) == 'Dropshot' and ex.payload(ex.payload(out)).tag == 'the-http-error'
+                    else:
+                        good = out.discr == 0
+                        if good:
+                            resp = ex.payload(out)
+                            ids = [v.content for n, v in resp.headers.entries if n == 'x-request-id']
+                            rqctx_id = dv(ex.field(r['calls'][0][1], 'request_id').v)
+                            good = len(ids) == 1 and isinstance(ids[0], SymStr) and ids[0].term.eq(ctx['rid'].term) and isinstance(rqctx_id, SymStr) and rqctx_id.term.eq(ctx['rid'].term)
+                            others = [(n, v) for n, v in resp.headers.entries if n != 'x-request-id']
+                            good = good and all(n == 'content-type' for n, v in others)
+                    m = chk.prove(f'{ctx["tag"]}/{rname}/one-request-id-equal-to-the-handlers', pc, z3.BoolVal(not good), extra=ctx['assume'])
+                    if m is not None:
+                        case = {'op': 'request_id_relay'}
+                        nat = replay([case])[0]
+                        chk.counterexample(f'response leaves with the wrong x-request-id header(s) ({rname}, {ctx["mode"]}): {out} -> native {nat}', case,
+                                           not nat.get('as_specified', False), role='stamping:' + rname)
+                g.run(eps, 'unversioned', mode, rfn, check, 'stamping')
+    finally:
+        ex.models = saved_models
 
 
 def _eq(ex, a, b):
@@ -332,6 +377,11 @@ def witnesses(chk):
         if not native_ok(c, r):
             chk.counterexample(f'{c["ctor"]} status {c["status"]} code {c["code"]}: native response {r}', c, True, role=f'error:{c["ctor"]}')
         if len(chk.samples) < 6: chk.samples.append({'case': c, 'native': r})
+    r = replay([{'op': 'request_id_relay'}])[0]
+    chk.replayed += 1
+    if not r.get('as_specified'):
+        chk.counterexample(f'request-id stamping on the wire: {r}', {'op': 'request_id_relay'}, True, role='stamping:wire')
+    chk.samples.append({'request_id_relay': r})
     sc = replay([{'op': 'status_code', 'value': v} for v in (0, 99, 100, 399, 400, 499, 500, 599, 600, 999, 1000, 65535)])
     for r in sc:
         chk.replayed += 1
